@@ -326,10 +326,14 @@ Definition astep (a : astate) (x : cb) : option astate :=
       | Some 1, Some 0 => Some (mkA (nupd c (fun _ => 2) (a_conns a)) (a_sesss a) (a_cbusy a) (a_srun a))
       | _, _ => None
       end
+  (* the open notification of a session names the connection that created it. It is delivered by the session's
+     own goroutine (ServerSession.run), asynchronously with respect to the creating request: that connection has
+     been opened, but it may already have been closed again (ServerConn.Close / Server.Close racing the SETUP);
+     C13 orders a session's callbacks against that session's close notification, not against its creator's. *)
   | CbSessOpen s c =>
       match nnth c (a_conns a) with
-      | Some 1 => if s =? nlen (a_sesss a) then Some (mkA (a_conns a) (a_sesss a ++ [1]) (a_cbusy a) (a_srun a ++ [0])) else None
-      | _ => None
+      | Some _ => if s =? nlen (a_sesss a) then Some (mkA (a_conns a) (a_sesss a ++ [1]) (a_cbusy a) (a_srun a ++ [0])) else None
+      | None => None
       end
   (* the close notification of a session: it is open and none of its callbacks is in progress *)
   | CbSessClose s =>
